@@ -88,3 +88,33 @@ def charge_substitution(charge_map):
 
 def describe_rows(rows, limit=6):
     return [{"if": fmt_conds(c), "then": repr(o)[:300]} for c, o in rows[:limit]]
+
+
+def empty_sum_norm(registries, positive=("N", "w"), int_atoms=("N", "w")):
+    """normaliser for dt.compare_rows: under the joint conditions of a (code row, spec row) pair, window sums over an
+    empty index domain are 0"""
+    def norm(conds, o):
+        return zero_empty_sums([(conds, o)], registries, positive, int_atoms)[0][1]
+    return norm
+
+
+def zero_empty_sums(rows, registries, positive=("N", "w"), int_atoms=("N", "w")):
+    """a window sum whose index domain is empty under the row's conditions is 0 (sum over an empty range)"""
+    from .dt import feasible_with
+    out = []
+    for conds, o in rows:
+        if isinstance(o, Rat):
+            sub = {}
+            for a in o.atoms():
+                if a.startswith("WS") and a[2:].isdigit():
+                    rec = registries[int(a[2:])]
+                    nonempty = ("cmp", rec["hi"], ">", rec["lo"])
+                    try:
+                        if feasible_with(list(conds) + [nonempty], [], set(positive), int_atoms=set(int_atoms)) is None:
+                            sub[a] = Rat.const(0)
+                    except Undecided:
+                        pass
+            if sub:
+                o = o.subst(sub)
+        out.append((conds, o))
+    return out
